@@ -525,6 +525,39 @@ pub fn gen_systematic(rng: &mut Rng, out: &mut Vec<String>) {
             }
         }
     }
+    // (1b) type codes that agree with a valid code in only one or two of the three letters (and every letter of one
+    //      code combined with the letters of the others), with each final flag
+    out.push("reset rx 0 100".to_string());
+    let valid: [&[u8; 3]; 6] = [b"HEL", b"ACK", b"ERR", b"MSG", b"OPN", b"CLO"];
+    for a in valid {
+        for b2 in valid {
+            for c in valid {
+                if a == b2 && b2 == c {
+                    continue;
+                }
+                // letters taken position-wise from three codes; skip most of the 216 combinations deterministically
+                let code = [a[0], b2[1], c[2]];
+                let same01 = a == b2;
+                let same12 = b2 == c;
+                let same02 = a == c;
+                if !(same01 || same12 || same02) && (a[0] as usize + b2[1] as usize + c[2] as usize) % 5 != 0 {
+                    continue;
+                }
+                for fin in [b'F', b'C'] {
+                    let f = frame_with(&[code[0], code[1], code[2], fin], 28, 28, 0);
+                    out.push(format!("stream [] x{}", hex(&f)));
+                }
+            }
+        }
+    }
+    for a in valid {
+        for pos in 0..3 {
+            let mut code = *a;
+            code[pos] = b'X';
+            let f = frame_with(&[code[0], code[1], code[2], b'F'], 28, 28, 0);
+            out.push(format!("stream [] x{}", hex(&f)));
+        }
+    }
     // (2) strings: null, negative, around max_string_length, short, trailing bytes — in HEL and ERR
     for max_str in [0u32, 4, 30] {
         out.push(format!("reset rx 0 {}", max_str));
